@@ -56,7 +56,9 @@ func genSettleScenario(r *kernel.Rand, prop string) *kernel.Scenario {
 			sc.Steps = append(sc.Steps, kernel.St("sub-pay", "sub", openSubs[r.Intn(len(openSubs))], "from", r.Intn(2), "amt", amt))
 		case k == 3 && len(openSubs) > 0:
 			j := r.Intn(len(openSubs))
-			sc.Steps = append(sc.Steps, kernel.St("sub-close", "sub", openSubs[j], "amt", amt))
+			// mid: between the sub-channel's final update and its settlement the parent
+			// moves on (1: a payment in the parent, from side mid_from)
+			sc.Steps = append(sc.Steps, kernel.St("sub-close", "sub", openSubs[j], "amt", amt, "mid", r.Weighted([]int{2, 1}), "mid_from", r.Intn(2)))
 			openSubs = append(openSubs[:j], openSubs[j+1:]...)
 		default:
 			sc.Steps = append(sc.Steps, kernel.St("pay", "from", r.Intn(2), "amt", amt))
@@ -145,7 +147,13 @@ func execSettle(t *testing.T, sc *kernel.Scenario, trace bool) *kernel.Result {
 				}
 			case "sub-close":
 				if k := int(st.Int("sub")); k < len(p.subs) && !p.subs[k].closed {
+					p.midClose = nil
+					if st.Int("mid") == 1 && !st0.disputed() {
+						side := int(st.Int("mid_from")) & 1
+						p.midClose = func() { p.pay(i, p.chans[0][side], side, 1+st.Int("amt")%7, payTO, false) }
+					}
 					p.subClose(i, k, st.Int("amt"))
+					p.midClose = nil
 				}
 			case "adv-register":
 				if adv >= 0 {
@@ -266,6 +274,9 @@ func (p *pair) subClose(step, k int, amt int64) {
 	o := p.pay(step, si.chans[side0], side0, amt, 60*time.Second, true)
 	if o.class != "ok" {
 		return // the peer's policy rejected the final update: the sub-channel stays open
+	}
+	if p.midClose != nil {
+		p.midClose() // the parent moves on before the sub-channel is settled into it
 	}
 	errs := make(chan error, 2)
 	for _, side := range []int{side0, 1 - side0} {
